@@ -20,6 +20,8 @@ ASSUMPTIONS = [
     "(scoring functions wrapped by recorders)",
     "wide sub-spaces: 10 jobs (job ids up to 9), every pair of jobs with 3 operations and the rest with 1, TWO shared symbolic durations "
     "(long jobs' operations / short jobs' operations) - ties everywhere, the orderings of k*a vs b are the paths",
+    "in the sub-spaces with an odd (operations + jobs) count the solver is an instance of a user-defined subclass of DispatchingRuleSolver "
+    "(the recorded name must be the subclass's)",
     "warm/preobs sub-spaces call solve(instance, dispatcher) with a caller-supplied dispatcher that is already partly dispatched (every "
     "prefix) or already carries IsReady/Duration observers restricted to operation features",
     "available operations are taken from the dispatcher (their correctness is C05/C07); the rule is wrapped by a checking callable and "
@@ -242,8 +244,10 @@ def _harness(eng, sp, Dispatcher, DispatchingRuleSolver, machine_chooser_factory
             state["twin"].dispatch(operation, m)
         return m
 
-    solver = DispatchingRuleSolver(dispatching_rule=checked_rule, machine_chooser=checked_chooser,
-                                   ready_operations_filter=filt)
+    # "the solver's class name": every other sub-space runs a user-defined subclass of the solver
+    sub = (sum(sp["shape"]) + len(sp["shape"])) % 2 == 1
+    cls = type("MyRuleSolver", (DispatchingRuleSolver,), {}) if sub else DispatchingRuleSolver
+    solver = cls(dispatching_rule=checked_rule, machine_chooser=checked_chooser, ready_operations_filter=filt)
     given = None
     if sp.get("warm") or sp.get("preobs"):
         # solve(instance, dispatcher) with a dispatcher supplied by the caller: already partly dispatched (warm) and/or already
@@ -284,8 +288,8 @@ def _harness(eng, sp, Dispatcher, DispatchingRuleSolver, machine_chooser_factory
         eng.prove_all(items)
         eng.observe("mk", sched.makespan())
         return
-    if md.get("solved_by") != "DispatchingRuleSolver":
-        eng.fail("C04/metadata-solved_by", str(md.get("solved_by")))
+    if md.get("solved_by") != cls.__name__:
+        eng.fail("C04/metadata-solved_by", f"{md.get('solved_by')} for a solver of class {cls.__name__}")
     if "elapsed_time" not in md:
         eng.fail("C04/metadata-elapsed_time-missing")
     else:
